@@ -20,6 +20,7 @@ import (
 	"strings"
 
 	"github.com/aergoio/aergo-lib/db"
+	"github.com/aergoio/aergo/v2/contract"
 	"github.com/aergoio/aergo/v2/internal/enc/base58"
 	"github.com/aergoio/aergo/v2/types"
 	"github.com/aergoio/aergo/v2/types/dbkey"
@@ -159,6 +160,35 @@ func Build(net nk.Net, sc Scenario) (*Tree, error) {
 			own := nk.MakeTx(nk.TxSpec{From: 1, Nonce: h, To: nk.UserAddrs[3], Amount: big.NewInt(int64(100 + i)), Type: types.TxType_TRANSFER}, cid)
 			txs = []*types.Tx{s, own}
 		}
+		if sc.Flavour == "ctr" {
+			// contract storage along forks: every block of height 1 deploys the same contract
+			// (shared tx, so the address exists on every branch); higher blocks carry a call shared
+			// by the height (set k=<height>) and a conflicting call of their own (set own=<block>,
+			// failing at run time in every third block), and stake/vote governance txs at height 2
+			ctr := contract.CreateContractID(nk.UserAddrs[2], 1)
+			s, ok := shared[h]
+			if !ok {
+				if h == 1 {
+					s = nk.MakeTx(nk.TxSpec{From: 2, Nonce: 1, Type: types.TxType_DEPLOY,
+						Payload: nk.JSON(map[string]interface{}{"code": "x", "ctor": [][]interface{}{{"set", "k", "0"}}})}, cid)
+				} else {
+					s = nk.MakeTx(nk.TxSpec{From: 3, Nonce: h - 1, To: ctr, Type: types.TxType_CALL,
+						Payload: nk.JSON(map[string]interface{}{"ops": [][]interface{}{{"set", "k", fmt.Sprint(h)}, {"event", "e"}}})}, cid)
+				}
+				shared[h] = s
+			}
+			txs = []*types.Tx{s}
+			if h > 1 {
+				ops := [][]interface{}{{"set", "own", fmt.Sprint(i)}, {"del", "k"}}
+				if i%3 == 0 {
+					ops = append(ops, []interface{}{"fail"})
+				}
+				txs = append(txs, nk.MakeTx(nk.TxSpec{From: 0, Nonce: h - 1, To: ctr, Amount: big.NewInt(int64(i)), Type: types.TxType_CALL,
+					Payload: nk.JSON(map[string]interface{}{"ops": ops})}, cid))
+			} else {
+				txs = append(txs, nk.MakeTx(nk.TxSpec{From: 1, Nonce: 1, To: []byte(types.AergoSystem), Amount: types.StakingMinimum, Type: types.TxType_GOVERNANCE, Payload: nk.GovPayload("v1stake")}, cid))
+			}
+		}
 		bad := ""
 		if sc.BadIdx == i {
 			bad = sc.BadKind
@@ -176,7 +206,7 @@ func Build(net nk.Net, sc Scenario) (*Tree, error) {
 			return nil, fmt.Errorf("produce block %d: %v", i, err)
 		}
 		blk := built.Block
-		if sc.Flavour == "tx" && bad != "badtx" && len(blk.GetBody().GetTxs()) != len(txs) {
+		if (sc.Flavour == "tx" || sc.Flavour == "ctr") && bad != "badtx" && len(blk.GetBody().GetTxs()) != len(txs) {
 			return nil, fmt.Errorf("builder skipped txs in block %d", i)
 		}
 		root := blk.GetHeader().GetBlocksRootHash()
